@@ -189,6 +189,7 @@ class Tracer:
         self.swallow_until_rmdir = None
         self.in_zip = False
         self.injected = False
+        self.errno_name = "EIO"
         self.active = False
         self.chunks = []
 
@@ -219,7 +220,8 @@ class Tracer:
             self.trace.pop()
             os._exit(77)
         if self.mode == "fault":
-            raise OSError(errno.EIO, "injected fault")
+            # OSError(errno, …) builds the matching subclass (PermissionError, FileExistsError, FileNotFoundError, IsADirectoryError, …)
+            raise OSError(getattr(errno, self.errno_name, errno.EIO), "injected fault")
         if self.mode == "fmtfail":
             raise ValueError("injected formatting failure")
 
@@ -326,6 +328,7 @@ def instrumented(job, out_fd):
     tr = Tracer(job["workdir"], job["dest"], job["mode"], job.get("k"), None)
     if job["writer"] == "atomic_tmpdir":
         tr.tmpdirs.append(os.path.join(tr.workdir, CALLER_TMP))
+    tr.errno_name = job.get("errno", "EIO")
     sys.addaudithook(tr.hook)
     orig_open_ = cio.open_
 
